@@ -37,7 +37,7 @@ Definition step_ok (st : dstate) (t : T) (st1 : dstate) (t1 : T) : Prop :=
 Variable B : nat.
 
 Definition reader_ok (r : reader T dstate) : Prop := forall st t,
-  (blen st <= B)%nat -> err st = None -> bytes_ok (buf st) -> rmatch _ _ r st = true ->
+  (blen st <= B)%nat -> err st = None -> bytes_ok (buf st) -> pfv st = true -> rmatch _ _ r st = true ->
   let '(st1, t1) := rrun _ _ r st t in step_ok st t st1 t1.
 Definition reader_sticky (r : reader T dstate) : Prop := forall st t, err st <> None -> err (fst (rrun _ _ r st t)) <> None.
 
@@ -95,7 +95,7 @@ Proof.
       + pose proof (loop1_sticky n st1 t1 He1) as Hk. destruct (loop1 T dstate pfv skip readers n st1 t1). exact Hk.
       + specialize (IH st1 t1 ltac:(lia) ltac:(lia) He1 Hb1 Hv1). rewrite Es1 in IH. exact IH. }
   destruct (find (fun r => rmatch _ _ r st) readers) as [r|] eqn:Ef.
-  - pose proof (find_some _ _ Ef) as [Hin Hm]. pose proof (readers_ok r Hin st t HB He Hb Hm) as Hr.
+  - pose proof (find_some _ _ Ef) as [Hin Hm]. pose proof (readers_ok r Hin st t HB He Hb Hv Hm) as Hr.
     destruct (rrun _ _ r st t) as [st1 t1]. apply Hstep. exact Hr.
   - apply Hstep. apply skip_ok; assumption.
 Qed.
